@@ -20,7 +20,8 @@ import (
 var c02Texts = []string{"x", "hello world", " u ", "1", "2.5", "1e3", "007", "-0", "0x1F", "true", "T", "false", "NaN", "-inf", "Infinity",
 	"9223372036854775808", " 12 ", "<&>\"'", "a&amp;b", "]]>", "&#x41;", "<![CDATA[", "é€", "l1\nl2", "\ttab", "tail\t", "a < b && c > d", "'single' \"double\""}
 
-var c02AttrPrefixes = []string{"-", "-", "@", "_", "attr_", "A_"}
+// some prefixes are proper prefixes of others: a Map key built under one of them must not survive a change to the other (seed C02-8)
+var c02AttrPrefixes = []string{"-", "-", "@", "_", "attr_", "A_", "--", "@@", "__"}
 var c02KeyPrefixes = []string{"#", "#", "#", "$", "%", "~"}
 
 // genC02Opts: the symmetric option cube (integer cast and tag sequence numbers excluded).
